@@ -230,6 +230,15 @@ func opTwoBlocks(_ *HState, a Event) Event {
 
 func opTxWrap(_ *HState, a Event) Event {
 	msg := mkBlock(1+gInt(a, "k")%3, uint32(gInt(a, "salt"))).Transactions[0]
+	// degenerate but serialisable shapes: no inputs, no outputs, neither (10 bytes) -- the wrappers do not judge validity
+	switch gInt(a, "shape") {
+	case 1:
+		msg.TxIn = nil
+	case 2:
+		msg.TxOut = nil
+	case 3:
+		msg.TxIn, msg.TxOut = nil, nil
+	}
 	fh := msg.TxHash()
 	e := with(a, "fresh", ints(fh[:]))
 	p, pm := guard(func() {
@@ -300,6 +309,28 @@ func runC16(c *Ctx) {
 		}
 		c.Run(calls)
 	}
+	// walks over the first k transactions of blocks around 64 / 128 / 256 transactions (bookkeeping of "which wrappers
+	// exist" in machine words), then the whole list, then the rest
+	for wi, n := range []int{63, 64, 65, 66, 129, 257} {
+		if !c.Thorough() && n != 65 && n != 129 && n != 64 {
+			continue
+		}
+		for _, k := range []int{n - 1, 64, 63, 32, 1} {
+			if k >= n || k < 1 {
+				continue
+			}
+			calls := []Event{{"op": "BlockNew", "n": n, "salt": 8800 + wi, "ctor": ctors[(wi+k)%len(ctors)], "token": false}}
+			for _, i := range r.Perm(k) {
+				if i%2 == 0 {
+					calls = append(calls, Event{"op": "Tx", "i": i})
+				} else {
+					calls = append(calls, Event{"op": "TxHash", "i": i})
+				}
+			}
+			calls = append(calls, Event{"op": "Transactions"}, Event{"op": "Tx", "i": n - 1}, Event{"op": "TxHash", "i": k}, Event{"op": "Transactions"})
+			c.Run(calls)
+		}
+	}
 	// transaction counts around the CompactSize boundary (one-byte / three-byte count): locations and bytes
 	for i, n := range []int{252, 253, 254, c.Pick(300, 1000)} {
 		c.Run([]Event{{"op": "BlockNew", "n": n, "salt": 7700 + i, "ctor": ctors[(i+1)%len(ctors)], "token": false},
@@ -310,6 +341,6 @@ func runC16(c *Ctx) {
 		c.Call(Event{"op": "TwoBlocks", "na": na, "nb": 1 + r.Intn(na), "salt": int(r.Int31n(60000)), "reader": k%2 == 1})
 	}
 	for k := 0; k < c.Pick(20, 200); k++ {
-		c.Call(Event{"op": "TxWrap", "k": k, "salt": int(r.Int31n(60000)), "setindex": r.Intn(100) - 1})
+		c.Call(Event{"op": "TxWrap", "k": k, "salt": int(r.Int31n(60000)), "setindex": r.Intn(100) - 1, "shape": (k / 3) % 4})
 	}
 }
